@@ -6,22 +6,18 @@ package main
 // the same query text with z3-new and cvc5.
 
 import (
-	"bufio"
 	"fmt"
-	"io"
 	"os"
 	"os/exec"
+	"path/filepath"
 	"strconv"
 	"strings"
 	"sync"
+	"sync/atomic"
 	"time"
 )
 
 type Solver struct {
-	bin       string
-	cmd       *exec.Cmd
-	in        io.WriteCloser
-	out       *bufio.Reader
 	timeoutMs int
 	Queries   int
 	Time      time.Duration
@@ -30,6 +26,7 @@ type Solver struct {
 	tag       string
 	Cross     []CrossResult
 	crossOn   bool
+	Wins      map[string]int
 }
 
 type CrossResult struct {
@@ -41,86 +38,46 @@ type CrossResult struct {
 }
 
 func NewSolver(timeoutMs int) *Solver {
-	bin := os.Getenv("GOSMT_Z3")
-	if bin == "" {
-		bin = "z3"
-	}
-	s := &Solver{bin: bin, timeoutMs: timeoutMs}
-	s.start()
-	return s
+	return &Solver{timeoutMs: timeoutMs, Wins: map[string]int{}}
 }
 
-func (s *Solver) start() {
-	cmd := exec.Command(s.bin, "-in")
-	in, _ := cmd.StdinPipe()
-	outp, _ := cmd.StdoutPipe()
-	cmd.Stderr = nil
-	if err := cmd.Start(); err != nil {
-		panic(err)
-	}
-	s.cmd, s.in, s.out = cmd, in, bufio.NewReaderSize(outp, 1<<20)
-	s.send("(set-option :produce-models true)")
-}
-
-func (s *Solver) Close() {
-	if s.cmd != nil {
-		s.in.Close()
-		s.cmd.Process.Kill()
-		s.cmd.Wait()
-		s.cmd = nil
-	}
-}
-
-func (s *Solver) send(l string) { io.WriteString(s.in, l+"\n") }
-
-// readSexp reads one complete s-expression or atom line.
-func (s *Solver) readSexp() (string, error) {
-	var sb strings.Builder
-	depth := 0
-	started := false
-	for {
-		l, err := s.out.ReadString('\n')
-		if err != nil {
-			return sb.String(), err
-		}
-		inStr := false
-		for _, c := range l {
-			if c == '"' {
-				inStr = !inStr
-			}
-			if inStr {
-				continue
-			}
-			if c == '(' {
-				depth++
-				started = true
-			} else if c == ')' {
-				depth--
-			}
-		}
-		sb.WriteString(l)
-		if strings.TrimSpace(l) != "" {
-			started = true
-		}
-		if started && depth <= 0 {
-			return strings.TrimSpace(sb.String()), nil
-		}
-	}
-}
+func (s *Solver) Close() {}
 
 type QueryResult struct {
 	Status string // sat | unsat | unknown | error:...
 	Env    *Env   // on sat
 	Secs   float64
 	Nodes  int
+	By     string
 }
 
-func tacticFor(hasUF bool) string {
-	if hasUF {
-		return "(check-sat-using (then simplify solve-eqs simplify qfufbv))"
-	}
-	return "(check-sat-using (then simplify solve-eqs simplify bit-blast sat))"
+// strategies of the portfolio: each runs as its own z3 process on the same query text; the first
+// definitive answer wins (measured: the explicit bit-blasting pipeline is up to 200x faster than the
+// SMT core on parser-style formulas and up to 100x slower on loop/heap-merge formulas).
+type strategy struct {
+	name, bin, check string
 }
+
+func strategiesFor(hasUF bool) []strategy {
+	bin := os.Getenv("GOSMT_Z3")
+	if bin == "" {
+		bin = "z3"
+	}
+	if hasUF {
+		return []strategy{
+			{"z3-smt", bin, "(check-sat)"},
+			{"z3-qfufbv", bin, "(check-sat-using (then simplify solve-eqs simplify qfufbv))"},
+		}
+	}
+	return []strategy{
+		{"z3-bitblast", bin, "(check-sat-using (then simplify solve-eqs simplify bit-blast sat))"},
+		{"z3-smt", bin, "(check-sat)"},
+		{"z3-qfbv", bin, "(check-sat-using qfbv)"},
+	}
+}
+
+var solverSlots = make(chan struct{}, 16)
+var queryFileSeq int64
 
 // Check decides satisfiability of the conjunction of conds.
 func (s *Solver) Check(b *Builder, conds []*Term, label string) QueryResult {
@@ -154,7 +111,7 @@ func (s *Solver) Check(b *Builder, conds []*Term, label string) QueryResult {
 		os.MkdirAll(s.dumpDir, 0o755)
 		os.WriteFile(fmt.Sprintf("%s/%s-q%d-%s.smt2", s.dumpDir, s.tag, s.Queries, sanitize(label)), []byte(text+"(check-sat)\n"), 0o644)
 	}
-	res := s.run(text, hasUF, sc)
+	res := s.portfolio(text, hasUF, sc)
 	res.Nodes = sc.nodeCnt
 	res.Secs = time.Since(t0).Seconds()
 	s.Time += time.Since(t0)
@@ -164,64 +121,121 @@ func (s *Solver) Check(b *Builder, conds []*Term, label string) QueryResult {
 	return res
 }
 
-func (s *Solver) run(text string, hasUF bool, sc *Script) QueryResult {
-	s.send("(push)")
-	s.send(fmt.Sprintf("(set-option :timeout %d)", s.timeoutMs))
-	io.WriteString(s.in, text)
-	s.send(tacticFor(hasUF))
-	r, err := s.readSexp()
-	if err != nil {
-		s.Close()
-		s.start()
-		return QueryResult{Status: "error: solver died: " + err.Error()}
+func (s *Solver) portfolio(text string, hasUF bool, sc *Script) QueryResult {
+	dir := os.Getenv("GOSMT_BUILD")
+	if dir == "" {
+		dir = filepath.Join(verifDir, "build")
 	}
-	if strings.HasPrefix(r, "(error") {
-		// drain nothing more; retry with plain check-sat
-		s.send("(check-sat)")
-		r2, err2 := s.readSexp()
-		if err2 != nil || strings.HasPrefix(r2, "(error") {
-			s.send("(pop)")
-			return QueryResult{Status: "error: " + r + " / " + r2}
+	dir = filepath.Join(dir, "queries")
+	os.MkdirAll(dir, 0o755)
+	leaves := append(append([]*Term(nil), sc.Vars...), sc.UFApps...)
+	var gv strings.Builder
+	for i := 0; i < len(leaves); i += 200 {
+		j := i + 200
+		if j > len(leaves) {
+			j = len(leaves)
 		}
-		r = r2
+		gv.WriteString("(get-value (")
+		for _, t := range leaves[i:j] {
+			gv.WriteString(sc.ref(t))
+			gv.WriteByte(' ')
+		}
+		gv.WriteString("))\n")
 	}
-	res := QueryResult{Status: r}
-	if r == "sat" {
-		env := NewEnv()
-		leaves := append(append([]*Term(nil), sc.Vars...), sc.UFApps...)
-		// ask in chunks
-		for i := 0; i < len(leaves); i += 200 {
-			j := i + 200
-			if j > len(leaves) {
-				j = len(leaves)
+	strats := strategiesFor(hasUF)
+	type ans struct {
+		st  strategy
+		out string
+		err error
+	}
+	ch := make(chan ans, len(strats))
+	var cmds []*exec.Cmd
+	var cmu sync.Mutex
+	var files []string
+	seq := atomic.AddInt64(&queryFileSeq, 1)
+	killed := false
+	for _, st := range strats {
+		f := filepath.Join(dir, fmt.Sprintf("q%d-%d-%s.smt2", os.Getpid(), seq, st.name))
+		files = append(files, f)
+		body := "(set-option :produce-models true)\n" + text + st.check + "\n" + gv.String()
+		if err := os.WriteFile(f, []byte(body), 0o644); err != nil {
+			return QueryResult{Status: "error: " + err.Error()}
+		}
+		go func(st strategy, f string) {
+			solverSlots <- struct{}{}
+			defer func() { <-solverSlots }()
+			cmu.Lock()
+			if killed {
+				cmu.Unlock()
+				ch <- ans{st, "", fmt.Errorf("cancelled")}
+				return
 			}
-			var names []string
-			for _, t := range leaves[i:j] {
-				names = append(names, sc.ref(t))
+			cmd := exec.Command(st.bin, fmt.Sprintf("-T:%d", s.timeoutMs/1000+1), "-memory:12000", f)
+			cmds = append(cmds, cmd)
+			cmu.Unlock()
+			out, err := cmd.Output()
+			ch <- ans{st, string(out), err}
+		}(st, f)
+	}
+	defer func() {
+		for _, f := range files {
+			os.Remove(f)
+		}
+	}()
+	var res QueryResult
+	res.Status = "unknown"
+	got := 0
+	var notes []string
+	for got < len(strats) {
+		a := <-ch
+		got++
+		first := strings.TrimSpace(a.out)
+		rest := ""
+		if i := strings.IndexByte(first, '\n'); i >= 0 {
+			rest = first[i+1:]
+			first = strings.TrimSpace(first[:i])
+		}
+		if first == "unsat" {
+			res = QueryResult{Status: "unsat", By: a.st.name}
+			break
+		}
+		if first == "sat" {
+			vals := parseValues(rest)
+			if len(vals) != len(leaves) {
+				notes = append(notes, fmt.Sprintf("%s: sat but %d values for %d leaves", a.st.name, len(vals), len(leaves)))
+				continue
 			}
-			s.send("(get-value (" + strings.Join(names, " ") + "))")
-			out, err := s.readSexp()
-			if err != nil || strings.HasPrefix(out, "(error") {
-				s.send("(pop)")
-				return QueryResult{Status: "error: get-value: " + out}
-			}
-			vals := parseValues(out)
-			if len(vals) != j-i {
-				s.send("(pop)")
-				return QueryResult{Status: fmt.Sprintf("error: get-value returned %d values for %d names: %.200s", len(vals), j-i, out)}
-			}
-			for k, t := range leaves[i:j] {
+			env := NewEnv()
+			for k, t := range leaves {
 				env.vals[t] = vals[k]
 			}
+			res = QueryResult{Status: "sat", Env: env, By: a.st.name}
+			break
 		}
-		res.Env = env
-	} else if r != "unsat" {
-		res.Status = "unknown"
-		if r != "unknown" && r != "timeout" {
-			res.Status = "unknown(" + r + ")"
+		if strings.HasPrefix(first, "(error") {
+			notes = append(notes, a.st.name+": "+first)
 		}
 	}
-	s.send("(pop)")
+	cmu.Lock()
+	killed = true
+	for _, c := range cmds {
+		if c.Process != nil {
+			c.Process.Kill()
+		}
+	}
+	cmu.Unlock()
+	// drain remaining goroutines asynchronously
+	go func(n int) {
+		for i := 0; i < n; i++ {
+			<-ch
+		}
+	}(len(strats) - got)
+	if res.Status == "unknown" && len(notes) > 0 {
+		res.Status = "unknown(" + strings.Join(notes, "; ") + ")"
+	}
+	if res.By != "" {
+		s.Wins[res.By]++
+	}
 	return res
 }
 
